@@ -39,7 +39,8 @@ if name == "M2":
 if name == "M3":
     edit("dimse_messages.py", '(context_id, b"\\x02" + next(ds_fragments))', '(context_id, b"\\x00" + next(ds_fragments))')
 if name in ("M4", "M5"):
-    edit("dimse_messages.py", "            if encoded_data_set:\n", "            if True:\n")
+    edit("dimse_messages.py", "            if encoded_data_set:\n",
+         "            if True:\n" if name == "M4" else "            if encoded_data_set or self.command_set.CommandDataSetType != 0x0101:\n")
     edit("dimse_messages.py", "                    nr_fragments = ceil(len(encoded_data_set) / (max_pdu_length - 6))\n",
          "                    nr_fragments = max(1, ceil(len(encoded_data_set) / (max_pdu_length - 6)))\n")
     edit("dimse_messages.py", '''                ds_fragments = self._generate_pdv_fragments(
